@@ -36,6 +36,9 @@ class _Cf:
         self.s = s
         self.packets = []
         self.params = []
+        self.hover_count = 0
+        self.stall = None
+        self.stalls = []
         self.commander = Commander(self)
         self.high_level_commander = HighLevelCommander(self)
         cf = self
@@ -55,6 +58,13 @@ class _Cf:
 
     def send_packet(self, pk, expected_reply=(), resend=False, timeout=0.2):
         self.s.yield_point()
+        if pk.port == 7 and pk.channel == 0 and len(pk.data) > 1:
+            self.hover_count += 1
+            if self.stall and self.hover_count == self.stall['at']:
+                # the link stalls (e.g. a full driver queue): this send blocks for a while
+                t0 = self.s.now
+                self.s.sleep(self.stall['dur'])
+                self.stalls.append((t0, self.s.now))
         self.packets.append((self.s.now, pk.port, pk.channel, bytes(pk.data)))
 
 
@@ -145,6 +155,7 @@ def run_mc(case):
     steps = case['steps']
     with Session(case.get('schedule'), horizon=100.0) as s:
         cf = _Cf(s)
+        cf.stall = case.get('stall')
         cmds = []      # (time, vector) commanded
         durations = []
         raised = None
@@ -210,6 +221,8 @@ def run_mc(case):
         # gaps
         period = 0.2
         for a, b in zip(hov, hov[1:]):
+            if any(a[1] <= st1 + 1e-9 and st0 <= b[1] + 1e-9 for st0, st1 in cf.stalls):
+                continue
             if b[1] - a[1] > period + 1e-9:
                 out.fail('mc:setpoint-gap', '%s: %.4f s between hover setpoints at %.4f' % (desc, b[1] - a[1], a[1]))
                 break
@@ -248,10 +261,11 @@ def run_mc(case):
                 opts.append(cur)
                 return opts
             t_land = None
+            t_stall = min([st0 for st0, st1 in cf.stalls], default=1e18)
             for d in hov:
                 t = d[1]
-                if t > t_body_end + 1e-9 and case['raise_at'] is None and not t_land:
-                    pass
+                if t >= t_stall - 1e-9:
+                    break      # a stalled link delays the setpoint thread: what it streams afterwards lags the commands
                 if t <= t_body_end + 1e-9:
                     zs = z_at(t)
                     if abs(d[5] - F32(zs)) > 1e-5 * max(1.0, abs(zs)):
@@ -387,7 +401,7 @@ def run_hl(case):
 
 
 _d = st.one_of(st.floats(0.05, 2.0, allow_nan=False), st.sampled_from([0.1, 0.3, 0.5, 1.0]))
-_v = st.one_of(st.floats(0.05, 1.0, allow_nan=False), st.sampled_from([0.2, 0.5, 1.0]))
+_v = st.one_of(st.floats(0.05, 1.0, allow_nan=False), st.sampled_from([0.2, 0.5, 0.5, 0.5, 1.0]))
 _ang = st.one_of(st.floats(1.0, 720.0, allow_nan=False), st.sampled_from([90.0, 180.0, 360.0]))
 _rate = st.one_of(st.floats(10.0, 360.0, allow_nan=False), st.sampled_from([72.0, 90.0]))
 _rad = st.floats(0.1, 2.0, allow_nan=False)
@@ -429,7 +443,8 @@ _sched = st.fixed_dictionaries({'prefix': st.lists(st.integers(0, 3), max_size=3
 def mc_case(draw):
     steps = draw(st.lists(_mc_step(), max_size=12))
     return {'height': draw(st.sampled_from([0.3, 0.5, 1.0, 0.25])), 'context': draw(st.booleans()), 'steps': steps,
-            'raise_at': draw(st.one_of(st.none(), st.none(), st.integers(0, len(steps)))), 'schedule': draw(_sched)}
+            'raise_at': draw(st.one_of(st.none(), st.none(), st.integers(0, len(steps)))), 'schedule': draw(_sched),
+            'stall': draw(st.one_of(st.none(), st.none(), st.fixed_dictionaries({'at': st.integers(1, 60), 'dur': st.sampled_from([0.5, 1.5, 3.0])})))}
 
 
 @st.composite
@@ -460,6 +475,6 @@ def hl_case(draw):
 
 def subchecks(tier):
     return [
-        Sub('motion-commander', run_mc, strategy=mc_case(), examples={'quick': 300, 'thorough': 15000}),
+        Sub('motion-commander', run_mc, strategy=mc_case(), examples={'quick': 900, 'thorough': 30000}),
         Sub('position-hl', run_hl, strategy=hl_case(), examples={'quick': 500, 'thorough': 25000}),
     ]
